@@ -18,8 +18,8 @@ PROPS = {
         level="other",
         explanation="Sequential symbolic execution of Status.getError, SetSuccessThreshold[Sinks], SuccessThreshold[Sinks] from go/ssa with thresholds, lengths (<=4) and ctx error symbolic; assertions discharged by z3 (unsat of negation).",
         jobs=[dict(harness=BROKER_H, entries=r"^H_C02_", params=dict(quick=dict(K=2, L=2), thorough=dict(K=3, L=3)), shards=dict(quick=1, thorough=8)),
-              dict(harness=BROKER_H, entries=r"^H_C01_process_seq$", params=dict(quick=dict(P=2, N=2), thorough=dict(P=3, N=3)), shards=dict(quick=4, thorough=16))],
-        must_reach=["C02.threshold.end", "C02.getError.end", "C02.preserved.end", "C01.process.end", "C02.cancelled.end", "C02.cancelled.error"],
+              dict(harness=BROKER_H, entries=r"^H_C01_process_seq$|^H_C01_shared_nodes$", params=dict(quick=dict(P=2, N=2), thorough=dict(P=3, N=3)), shards=dict(quick=4, thorough=16, H_C01_shared_nodes=1))],
+        must_reach=["C01.shared.end", "C02.threshold.end", "C02.getError.end", "C02.preserved.end", "C01.process.end", "C02.cancelled.end", "C02.cancelled.error"],
         bounds=dict(quick="thresholds: any int; complete/completeSinks lengths 0..4", thorough="same"),
         trusted_base=COMMON_TRUST,
     ),
@@ -68,11 +68,11 @@ PROPS = {
         explanation="Sequential parts: Send's lookup/event construction with graph.process replaced by a recording stub; linkNodes for all lengths 0..5; RegisterPipeline builds the list from the currently registered nodes (C05 harness); graph.process/doProcess executed with cooperative scheduling on one schedule for all outcome vectors (order, at-most-once, exact event hand-over). All-schedule reasoning: see EO jobs.",
         jobs=[dict(harness=BROKER_H, entries=r"^H_C01_Send$", params=dict(quick=dict(K=2, L=2), thorough=dict(K=3, L=3)), shards=dict(quick=1, thorough=4),
                    overrides=["(*github.com/hashicorp/eventlogger.graph).process=verifStubProcess"]),
-              dict(harness=BROKER_H, entries=r"^H_C01_linkNodes$", params=dict(quick=dict(LL=5), thorough=dict(LL=5))),
+              dict(harness=BROKER_H, entries=r"^H_C01_linkNodes$|^H_C01_shared_nodes$", params=dict(quick=dict(LL=5), thorough=dict(LL=5))),
               # which node objects a registered pipeline traverses: the list RegisterPipeline builds from any registry (inductive step)
               dict(harness=BROKER_H, entries=r"^H_C05_RegisterPipeline$|^H_C07_pipeline_other_type$", params=dict(quick=dict(K=2, L=2), thorough=dict(K=3, L=3)), shards=dict(quick=16, thorough=16, H_C07_pipeline_other_type=8)),
               dict(harness=BROKER_H, entries=r"^H_C01_process_seq$", params=dict(quick=dict(P=2, N=2), thorough=dict(P=3, N=3)), shards=dict(quick=4, thorough=16))],
-        must_reach=["C01.send.known", "C01.send.unknown", "C01.link.ok", "C01.process.end", "C05.register.ok"],
+        must_reach=["C01.send.known", "C01.send.unknown", "C01.link.ok", "C01.process.end", "C05.register.ok", "C01.shared.end"],
         bounds=dict(quick="P<=2 pipelines x 2 nodes; list length<=5", thorough="P<=3 x 2..3 nodes"),
         trusted_base=COMMON_TRUST,
     ),
@@ -167,11 +167,12 @@ PROPS["C19"] = dict(
     jobs=[dict(harness=BROKER_H, entries=r"^H_C19_|^H_C14_two_events$", params=dict(quick={}, thorough={}), shards=dict(quick=4, thorough=8)),
           dict(pkg="./sinks/writer", harness=["sinks/writer.go", "sinks/writer_c19.go"], entries=r"^H_C19_", params=dict(quick=dict(F=2), thorough=dict(F=2))),
           dict(pkg="./filters/gated", harness=["gated/gated.go", "gated/c19.go"], entries=r"^H_C19_", params=dict(quick={}, thorough={}), shards=dict(quick=4, thorough=8)),
+          dict(pkg="./sinks/channel", harness=["sinks/channel.go", "sinks/channel_c19.go"], entries=r"^H_C19_", params=dict(quick={}, thorough={})),
           dict(pkg="./formatter_filters/cloudevents", harness=["cloudevents/cloudevents.go", "cloudevents/c19.go"], entries=r"^H_C19_|^H_C18_two_events$", params=dict(quick=dict(T=1), thorough=dict(T=1))),
           dict(dir=REPO + "/filters/encrypt", harness=["encrypt/common.go", "encrypt/helpers_sym.go", "encrypt/helpers_native.go", "encrypt/c16.go", "encrypt/c09.go", "encrypt/c19.go"], entries=r"^H_C19_", params=dict(quick={}, thorough={}), shards=dict(quick=4, thorough=8))],
-    must_reach=["C19.core.end", "C19.table.end", "C19.writer.end", "C19.gated.end", "C19.cloudevents.end", "C19.filesink.end", "C19.encrypt.end"],
+    must_reach=["C19.core.end", "C19.table.end", "C19.writer.end", "C19.gated.end", "C19.cloudevents.end", "C19.filesink.end", "C19.encrypt.end", "C19.channel.end"],
     bounds=dict(quick="pairwise (a data race is a pairwise notion); one shared Event; node instances shared or not", thorough="same"),
-    assumptions=["public configuration fields that the library never writes are read-only by contract", "ChannelSink pairs are channel operations only (no shared memory)"],
+    assumptions=["public configuration fields that the library never writes are read-only by contract", "channel operations themselves are race-free by the language definition"],
     trusted_base=COMMON_TRUST,
 )
 FS_NOTE = "FileSink.Process / Reopen / reopen / open / rotate / pruneFiles / fileNamePattern / newFileName executed symbolically over a ghost file system (contracts for os.OpenFile incl. its flag word, Write, Close, Stat, Rename, Remove, Chmod, MkdirAll, filepath.Join/Glob, sort.Strings; file names parsed back into literal+timestamp structure so glob matching and order are decided structurally / as integer comparisons) from an arbitrary sink state (<=R rotated files with increasing symbolic timestamps, foreign files, active file open or not, symbolic BytesWritten/LastCreated/MaxBytes/MaxFiles/MaxDuration/Mode/TimestampOnlyOnRotate, symbolic clock). "
@@ -208,7 +209,7 @@ PROPS["C09"] = dict(
     level="other",
     explanation=REFLECT_NOTE + "An independently written specification (expect) says for every leaf which operation must have been applied; the forwarded value must be exactly that (kept / [REDACTED] / enc under the wrapper / HMAC under wrapper+salt+info); missing wrapper with a configured encrypt/hmac operation and every failing step must return an error and forward nothing.",
     jobs=[dict(dir=ENC_DIR, harness=ENC_H2, entries=r"^H_C09_|^H_C10_", params=dict(quick={}, thorough={}), shards=dict(quick=8, thorough=16))],
-    must_reach=["C09.struct.ok", "C09.struct.nowrapper", "C09.struct.error", "C09.nested.ok", "C09.toplevel.ok", "C09.first-field.ok", "C10.struct.allnone", "C10.trivial.end"],
+    must_reach=["C09.struct.ok", "C09.struct.nowrapper", "C09.struct.error", "C09.nested.ok", "C09.toplevel.ok", "C09.first-field.ok", "C09.taggable-faults.ok", "C09.taggable-faults.refused", "C10.struct.allnone", "C10.trivial.end"],
     bounds=dict(quick="shape catalogue: tagged struct via pointer (11 field kinds incl. unknown class / unknown op / untagged / []byte / nil []byte), nested pointer + []string + [][]byte + *string + untagged map with sub-map + struct value, top-level untagged map / Taggable map / []string / *string / string; struct value as first field (shares the parent's address) + slice of struct values", thorough="same"),
     assumptions=["payload shapes outside the catalogue (protobuf structpb/wrapperspb, deeper nesting, slices of Taggables) are not covered", "tags are the concrete tags of the catalogue types (no symbolic tag strings)", "reflect / copystructure / pointerstructure semantics are our model of those libraries"],
     trusted_base=COMMON_TRUST + ["engine/symex/reflectmodel.go", "engine/symex/cryptomodel.go"],
